@@ -599,6 +599,129 @@ def _inline_site(f, bid, idx, g, n):
     f._preds = f._events = f._calls = None
 
 
+def _load_baseline_locals():
+    path = os.path.join(VERIF, 'engine', 'baseline_locals.json')
+    if os.environ.get('VERIF_NO_INLINE') or not os.path.exists(path):
+        return None
+    with open(path) as fh:
+        return json.load(fh)
+
+
+def _propagate_new_locals(f, known):
+    """Locals that do not exist in the reference tree's version of this function and are defined exactly
+    once from an expression whose operands do not change afterwards are aliases / hoisted subexpressions:
+    their uses are replaced by the defining expression (a call keeps its identity), so rules see the
+    expression the reference tree would have written in place."""
+    import copy
+    decls = {}
+    for b in f.blocks.values():
+        for ev in b['events']:
+            if ev['ev'] == 'decl' and ev['var'].get('kind') == 'local':
+                decls[ev['var']['id']] = ev['var']['name']
+    cands = {vid: nm for vid, nm in decls.items() if nm not in known and not nm.startswith('$') and vid < SYNTH_ID}
+    if not cands:
+        return 0
+    defs = {vid: [] for vid in cands}
+    bad = set()
+    for bid, b in f.blocks.items():
+        for i, ev in enumerate(b['events']):
+            if ev['ev'] == 'decl' and ev['var']['id'] in cands and ev.get('init') is not None:
+                defs[ev['var']['id']].append((bid, i, ev['init']))
+            elif ev['ev'] == 'assign' and ev['e']['l'].get('k') == 'ref' and ev['e']['l'].get('id') in cands:
+                if ev['e']['op'] == '=':
+                    defs[ev['e']['l']['id']].append((bid, i, ev['e']['r']))
+                else:
+                    bad.add(ev['e']['l']['id'])
+            elif ev['ev'] == 'incdec' and ev['e']['e'].get('k') == 'ref' and ev['e']['e'].get('id') in cands:
+                bad.add(ev['e']['e']['id'])
+            tops = _event_exprs(ev)
+            for top in tops:
+                for x in walk(top):
+                    if x.get('k') == 'un' and x.get('op') == '&' and isinstance(x.get('e'), dict) and \
+                            x['e'].get('k') == 'ref' and x['e'].get('id') in cands:
+                        bad.add(x['e']['id'])
+        t = b.get('term')
+        if t and t.get('cond') is not None:
+            for x in walk(t['cond']):
+                if x.get('k') == 'un' and x.get('op') == '&' and isinstance(x.get('e'), dict) and \
+                        x['e'].get('k') == 'ref' and x['e'].get('id') in cands:
+                    bad.add(x['e']['id'])
+    done = 0
+    for vid, ds in defs.items():
+        if vid in bad or len(ds) != 1:
+            continue
+        dbid, didx, rhs = ds[0]
+        if any(x.get('k') == 'ref' and x.get('id') == vid for x in walk(rhs)):
+            continue
+        if rhs.get('k') == 'int':
+            continue
+        # operands must not change after the definition
+        region = set()
+        st = list(f.blocks[dbid]['succs'])
+        while st:
+            x = st.pop()
+            if x < 0 or x in region:
+                continue
+            region.add(x)
+            st.extend(f.blocks[x]['succs'])
+        later = [ev for ev in f.blocks[dbid]['events'][didx + 1:]]
+        for x in region:
+            later.extend(f.blocks[x]['events'])
+        op_ids = {x['id'] for x in walk(rhs) if x.get('k') == 'ref' and x.get('kind') in ('local', 'param') and 'id' in x}
+        op_fields = {x['field'] for x in walk(rhs) if x.get('k') == 'member'}
+        has_mem = any(x.get('k') in ('sub',) or (x.get('k') == 'un' and x.get('op') == '*') for x in walk(rhs))
+        unstable = False
+        for ev in later:
+            if ev['ev'] == 'assign':
+                l = ev['e']['l']
+                if l.get('k') == 'ref' and l.get('id') in op_ids:
+                    unstable = True
+                if l.get('k') == 'member' and l.get('field') in op_fields:
+                    unstable = True
+                if has_mem and l.get('k') in ('sub', 'un'):
+                    unstable = True
+            elif ev['ev'] == 'incdec':
+                l = ev['e']['e']
+                if l.get('k') == 'ref' and l.get('id') in op_ids:
+                    unstable = True
+                if l.get('k') == 'member' and l.get('field') in op_fields:
+                    unstable = True
+            elif ev['ev'] == 'decl' and ev['var']['id'] in op_ids and (dbid in region):
+                pass
+            elif ev['ev'] == 'call':
+                for a in ev['e']['args']:
+                    if a.get('k') == 'un' and a.get('op') == '&' and isinstance(a.get('e'), dict) and \
+                            a['e'].get('k') == 'ref' and a['e'].get('id') in op_ids:
+                        unstable = True
+        if unstable:
+            continue
+
+        def r(node, vid=vid, rhs=rhs):
+            if node.get('k') == 'ref' and node.get('id') == vid:
+                return copy.deepcopy(rhs)
+            return None
+        for bid, b in f.blocks.items():
+            nev = []
+            for i, ev in enumerate(b['events']):
+                if bid == dbid and i == didx:
+                    nev.append(ev)
+                    continue
+                if ev['ev'] == 'decl' and ev['var']['id'] == vid:
+                    nev.append(ev)
+                    continue
+                nev.append({kk: (_map_expr(v, r) if kk in ('e', 'init') else v) for kk, v in ev.items()})
+            b['events'] = nev
+            t = b.get('term')
+            if t and t.get('cond') is not None:
+                t = dict(t)
+                t['cond'] = _map_expr(t['cond'], r)
+                b['term'] = t
+        done += 1
+    if done:
+        f._preds = f._events = f._calls = None
+    return done
+
+
 class Program:
     def __init__(self, unit_dicts, stats=None):
         self.stats = stats or {}
@@ -645,6 +768,13 @@ class Program:
         self._addr_taken = None
         self.inlined = {}        # helper key -> [caller keys]
         self._inline_unknown_helpers()
+        self.propagated = 0
+        bl = _load_baseline_locals()
+        if bl is not None:
+            for f in self.funcs.values():
+                known = bl.get(f.file, {}).get(f.name)
+                if known is not None and f.blocks:
+                    self.propagated += _propagate_new_locals(f, set(known))
 
     def _inline_unknown_helpers(self):
         base = _load_baseline()
